@@ -61,6 +61,8 @@ class Heap:
         if not self.ver:
             return self.ver
         ver = dict(self.ver)
+        if field in ("fld", "has") and "@attr" in ver:
+            ver["@attr"] = fresh("ver_anyattr", IntS)  # footprint 'any attribute of any object'
         if field in ("fld", "has"):
             if len(idx) == 2:
                 nm = z3.simplify(idx[1])
